@@ -111,6 +111,21 @@ def check_bay_fext(led):
             report(led, name, func, probs)
 
 
+def _equal_on_path(it, path, a, b):
+    """a == b, syntactically or as a consequence of the facts and the conditions of this path"""
+    d = normal((a if isinstance(a, P) else P.const(a)) - (b if isinstance(b, P) else P.const(b)))
+    if d.is_zero():
+        return True
+    sv = z3.Solver()
+    sv.set('timeout', 10000)
+    for f_ in it.facts:
+        sv.add(f_)
+    for c_ in path.conds:
+        sv.add(pysym.cond_z3(c_) if isinstance(c_, pysym.Cond) else c_)
+    sv.add(to_z3(d) != 0)
+    return sv.check() == z3.unsat
+
+
 def check_bay_fext_stiffeners(led):
     """StiffPanelBay.calc_fext with 2-D stiffeners: the load vector is the concatenation skin | flanges of the 2-D blade stiffeners |
     base, flange of the T stiffeners -- the ranges the matrices use -- and each part collects [fx, fy, fz] . g of its own component"""
@@ -188,7 +203,7 @@ def check_bay_fext_stiffeners(led):
                 probs.append('%d parts, expected %d (skin, then the components of the 2-D stiffeners)' % (len(parts), len(want_parts)))
             else:
                 for part, (label, comp, force, length) in zip(parts, want_parts):
-                    if not isinstance(part, OutArray) or not normal(part.length - length).is_zero():
+                    if not isinstance(part, OutArray) or not _equal_on_path(it, path, part.length, length):
                         probs.append('%s: part of length %s, expected %s' % (label, getattr(part, 'length', None), length))
                         continue
                     if len(part.stores) != 1:
